@@ -194,13 +194,19 @@ class Thumb:
                 r[d] = r[m_] & 0xFFFF
             elif op == "ldr":
                 _, t, n, off, src = ins
+                if mem.below_sp((r[n] + off) & M32, r[SP]):
+                    raise SimError("load below the stack pointer (an interrupt's register stacking overwrites that memory): " + src)
                 r[t] = mem.load((r[n] + off) & M32, 4)
             elif op == "str":
                 _, t, n, off, src = ins
+                if mem.below_sp((r[n] + off) & M32, r[SP]):
+                    raise SimError("store below the stack pointer (an interrupt's register stacking overwrites that memory): " + src)
                 mem.store((r[n] + off) & M32, 4, r[t])
             elif op == "ldm":
                 _, n, lst, src = ins
                 addr = r[n]
+                if mem.below_sp(addr, r[SP]):
+                    raise SimError("ldm below the stack pointer: " + src)
                 for k, t in enumerate(lst):
                     r[t] = mem.load(addr + 4 * k, 4)
                 if n not in lst:
@@ -208,6 +214,8 @@ class Thumb:
             elif op == "stm":
                 _, n, lst, src = ins
                 addr = r[n]
+                if mem.below_sp(addr, r[SP]):
+                    raise SimError("stm below the stack pointer: " + src)
                 for k, t in enumerate(lst):
                     mem.store(addr + 4 * k, 4, r[t])
                 r[n] = (addr + 4 * len(lst)) & M32
